@@ -50,12 +50,14 @@ pub fn run(ctx: &mut Ctx) {
         ex(&mut log, &mut im, &format!("vi.enc {v}"));
         let mut e = spec_enc(v);
         e.extend(rng.bytes(rng.clone().usize_below(3)));
-        ex(&mut log, &mut im, &format!("vi.dec {}", hexd(&e)));
+        let whole = ex(&mut log, &mut im, &format!("vi.dec {}", hexd(&e)));
+        // the same bytes through readers that hand out 1, 2 or 3 bytes per call: same result
+        for k in 1..=3 { let o = ex(&mut log, &mut im, &format!("vi.decr {} {k}", hexd(&e))); if o != whole { or.fail(format!("VarInt::read through a reader delivering {k} byte(s) per call gives `{o}`, from a contiguous slice `{whole}`"), log.replay_block(), format!("C15:drip:{k}")); } }
         or.eval(("v", v), v >= 128 || v == 127);
         if v >= 128 && i % 7 == 0 {
             // every truncation of the 4-byte encoding
             let e = spec_enc(v);
-            for cut in 0..4 { ex(&mut log, &mut im, &format!("vi.dec {}", hexd(&e[..cut]))); or.eval(("t", v, cut), true); }
+            for cut in 0..4 { ex(&mut log, &mut im, &format!("vi.dec {}", hexd(&e[..cut]))); ex(&mut log, &mut im, &format!("vi.decr {} 1", hexd(&e[..cut]))); or.eval(("t", v, cut), true); }
         }
     }
     log.case("conversions");
